@@ -51,4 +51,28 @@ CFG(f3, "chain-zp", LIST, false, CHAIN, 0, true, true, true, true, true, true, f
 #elif PMH_TU == 13
 CFG(f4, "chain-zp", INTRUSIVE_LIST, false, CHAIN, 0, true, false, false, false, true, true, false)
 CFG(f5, "chain-zp", UNORDERED_SET, false, CHAIN, 2, false, true, false, false, true, true, false)
+#elif PMH_TU == 14
+CFG(v0, "ru-vine", INTRUSIVE_SET, true, RU, 0, false, true, false, false, true, false, true)
+CFG(v1, "ru-vine", LIST, true, RU, 2, true, false, false, true, true, true, true)
+#elif PMH_TU == 15
+CFG(v2, "ru-vine", UNORDERED_SET, true, RU, 0, false, true, false, true, false, false, true)
+CFG(v3, "ru-vine", SMALL_VECTOR, true, RU, 2, false, true, false, false, false, false, true)
+#elif PMH_TU == 16
+CFG(v4, "ru-vine", NAIVE_VECTOR, true, RU, 1, true, true, false, false, true, true, true)
+CFG(v5, "ru-vine", HEAP, true, RU, 0, false, true, false, false, true, false, true)
+#elif PMH_TU == 17
+CFG(w0, "chain-vine", INTRUSIVE_LIST, true, CHAIN, 0, true, true, true, true, true, false, true)
+CFG(w1, "chain-vine", NAIVE_VECTOR, true, CHAIN, 1, false, true, false, true, true, false, true)
+#elif PMH_TU == 18
+CFG(w2, "chain-vine", UNORDERED_SET, true, CHAIN, 2, false, true, false, true, true, true, true)
+CFG(w3, "chain-vine", SET, true, CHAIN, 0, false, true, false, false, true, false, true)
+#elif PMH_TU == 19
+CFG(w4, "chain-vine", INTRUSIVE_SET, true, CHAIN, 1, false, true, false, true, false, false, true)
+CFG(w5, "chain-vine", LIST, true, CHAIN, 2, false, true, false, false, false, false, true)
+#elif PMH_TU == 20
+CFG(v6, "ru-vine", VECTOR, true, RU, 0, false, true, false, false, true, false, true)
+CFG(w6, "chain-vine", VECTOR, true, CHAIN, 0, false, true, false, true, true, false, true)
+#elif PMH_TU == 21
+CFG(v7, "ru-vine", INTRUSIVE_SET, true, RU, 0, false, true, false, true, true, false, true)
+CFG(v8, "ru-vine", LIST, true, RU, 2, false, true, false, true, true, true, true)
 #endif
